@@ -3,14 +3,12 @@
   epow → (rcp) → reduce192 → compose`) against the real power, relative to the accuracy of the logarithm.
 
   Provided (namespace `PowAcc`):
-  * `good_out`      : an early `Inf` / zero is right when `e^(|y·ln|x||) ≥ 10^6200`
-  * `arg_split`     : `ln x · y = ±|ln x|·|y|` by the orientation flags of the code
   * `general_good`  : nearest mode; stripped operands `dSig·10^(dExp−6176)` (the base, `X`), `oSig·10^(oExp−6176)` (`|y|`);
                       if the logarithm of the base is accurate to `κ'·|ln X| + 4.5·10^-56` and
                       `(κ' + 4·10^-57)(1 + 10^-7) ≤ κ/2`, then every result `r` of `general` is
                       `PowGood neg (|y|·(κ·|ln X| + 10^-55)) (e^(ln X · y)) 𝔳[r]`
 -/
-import D128.Proofs.PowAccChain
+import D128.Proofs.PowAccStage
 set_option autoImplicit false
 set_option maxRecDepth 8192
 
@@ -18,125 +16,40 @@ namespace PowAcc
 open Gen D192 Spec SpecRound EnclPf ExpAcc LogAcc PowPf RK
 local notation "𝔳[" d "]" => Spec.interp (Gen.Decimal.lo d) (Gen.Decimal.hi d)
 
-theorem good_out (neg sgn : Bool) {tol Q : ℝ} (ht0 : 0 ≤ tol) (hQ : (10 : ℝ) ^ (6200 : ℕ) ≤ Q) :
-    PowGood neg tol (if sgn = true then 1 / Q else Q) 𝔳[if sgn = true then Gen.zero neg else Gen.inf neg] := by
-  have hQ0 : 0 < Q := lt_of_lt_of_le (by positivity) hQ
-  cases sgn
-  · simp only [Bool.false_eq_true, if_false]
-    rw [Enc.interp_inf]
-    exact good_inf neg ht0 (le_trans (pow_le_pow_right₀ (by norm_num) (by norm_num)) hQ)
-  · simp only [if_true]
-    rw [Enc.interp_zero]
-    exact good_zero neg ht0 (by positivity) (one_div_le_one_div_of_le (by positivity) hQ) _
+theorem cmax_lt35 {n : Nat} (h : n ≤ Spec.Cmax) : n < 10 ^ 35 := by
+  have := Cmax_val; omega
 
-theorem ret_out {neg c : Bool} {r : Decimal}
-    (h : ((if c = true then pure (Gen.zero neg) else pure (Gen.inf neg)) : Go.GoM Decimal) = .ok r) :
-    r = if c = true then Gen.zero neg else Gen.inf neg := by
-  cases c
-  · have : Gen.inf neg = r := by injection h
-    rw [← this]; rfl
-  · have : Gen.zero neg = r := by injection h
-    rw [← this]; rfl
+theorem side_log (e : Int) (h0 : 0 ≤ e) (h1 : e ≤ 12400) : -16000 ≤ e - 6176 ∧ e - 6176 ≤ 16000 := by omega
 
-/-- the exponent `ln x · y` by the orientation flags -/
-theorem arg_split {X Ya : ℝ} (hX : 0 < X) (inv oNeg : Bool) (hinv : inv = true ↔ X < 1) :
-    Real.log X * (if oNeg = true then -Ya else Ya)
-      = if (oNeg != inv) = true then -(|Real.log X| * Ya) else |Real.log X| * Ya := by
-  cases inv
-  · have h1 : 1 ≤ X := by
-      by_contra hc
-      have := hinv.2 (not_le.1 hc); cases this
-    rw [abs_of_nonneg (Real.log_nonneg h1)]
-    cases oNeg <;> simp
-  · have h1 : X < 1 := hinv.1 rfl
-    rw [abs_of_neg (Real.log_neg hX h1)]
-    cases oNeg <;> simp
+theorem side_mul (le oe : Int) (h0 : -5930 ≤ le) (h1 : le ≤ 5500) (ho0 : 0 ≤ oe) (hs : ¬ le + oe > 12322) :
+    -32768 ≤ le + (oe - 6176) ∧ le + (oe - 6176) + 58 ≤ 32767 ∧ -15900 ≤ le + (oe - 6176) := by omega
 
-theorem exp_sgn (sgn : Bool) (p : ℝ) :
-    Real.exp (if sgn = true then -p else p) = if sgn = true then 1 / Real.exp p else Real.exp p := by
-  cases sgn
-  · simp
-  · simp [Real.exp_neg]
+theorem side_sum (le oe : Int) (hs : le + oe > 12322) : (5 : Int) ≤ le + (oe - 6176) := by omega
 
-theorem e40000 {p : ℝ} (h : 40000 ≤ p) : (10 : ℝ) ^ (6200 : ℕ) ≤ Real.exp p :=
-  le_trans (pow_le_pow_right₀ (by norm_num) (by norm_num)) (exp_gt_of_ge h).le
-
-/-! ## real-number bounds used along the path -/
-
-theorem lv_bounds {κ' Lx Lv : ℝ} (hκ1 : κ' ≤ 1 / 10 ^ 30) (hL : 1 / 10 ^ 36 ≤ Lx)
-    (hLv : |Lv - Lx| ≤ κ' * Lx + 45 / 10 ^ 57) : 3 / 4 * Lx ≤ Lv ∧ Lv ≤ 2 * Lx ∧ 0 < Lv := by
-  obtain ⟨h1, h2⟩ := abs_le.1 hLv
-  have hLpos : 0 < Lx := lt_of_lt_of_le (by norm_num) hL
-  have h3 : κ' * Lx ≤ 1 / 10 ^ 30 * Lx := mul_le_mul_of_nonneg_right hκ1 hLpos.le
-  have h4 : (45 : ℝ) / 10 ^ 57 ≤ 1 / 10 ^ 19 * Lx := by
-    have : (45 : ℝ) / 10 ^ 57 ≤ 1 / 10 ^ 19 * (1 / 10 ^ 36) := by norm_num
-    have : 1 / 10 ^ 19 * (1 / 10 ^ 36 : ℝ) ≤ 1 / 10 ^ 19 * Lx := mul_le_mul_of_nonneg_left hL (by norm_num)
-    linarith
-  have h5 : (1 : ℝ) / 10 ^ 30 * Lx + 1 / 10 ^ 19 * Lx ≤ 1 / 4 * Lx := by
-    have : ((1 : ℝ) / 10 ^ 30 + 1 / 10 ^ 19) * Lx ≤ 1 / 4 * Lx := mul_le_mul_of_nonneg_right (by norm_num) hLpos.le
-    linarith
-  refine ⟨by linarith, by linarith, by linarith⟩
-
-theorem p_from_pv {Lx Lv Ya pv : ℝ} (hL : 0 < Lx) (hY : 0 < Ya) (h34 : 3 / 4 * Lx ≤ Lv) (h2 : Lv ≤ 2 * Lx)
-    (hp1 : Lv * Ya * (1 - 2 / 10 ^ 57) ≤ pv) (hp2 : pv ≤ Lv * Ya) :
-    pv ≤ 2 * (Lx * Ya) ∧ Lx * Ya ≤ 2 * pv := by
-  have h3 : Lv * Ya ≤ 2 * Lx * Ya := mul_le_mul_of_nonneg_right h2 hY.le
-  have h4 : 3 / 4 * Lx * Ya ≤ Lv * Ya := mul_le_mul_of_nonneg_right h34 hY.le
-  have h5 : 0 ≤ Lv * Ya := by
-    have : 0 ≤ 3 / 4 * Lx * Ya := by positivity
-    linarith
-  have h6 : Lv * Ya * (3 / 4) ≤ Lv * Ya * (1 - 2 / 10 ^ 57) := mul_le_mul_of_nonneg_left (by norm_num) h5
-  constructor
-  · nlinarith
-  · nlinarith
-
-theorem small_bounds {κ' κ Lx Ya : ℝ} (hκ1 : κ' ≤ 1 / 10 ^ 30) (hκ2 : κ ≤ 1 / 10 ^ 29)
-    (hL : 1 / 10 ^ 36 ≤ Lx) (hY : 0 < Ya) (hp : Lx * Ya ≤ 2 * 10 ^ 6) :
-    Bk κ' Lx Ya ≤ 1 / 10 ^ 9 ∧ Ya * (κ * Lx + 1 / 10 ^ 55) ≤ 1 / 1000 := by
-  have hLpos : 0 < Lx := lt_of_lt_of_le (by norm_num) hL
-  have hYa : Ya ≤ 2 * 10 ^ 42 := by
-    have h1 : 1 / 10 ^ 36 * Ya ≤ Lx * Ya := mul_le_mul_of_nonneg_right hL hY.le
-    have h2 : 1 / 10 ^ 36 * Ya ≤ 2 * 10 ^ 6 := le_trans h1 hp
-    have e : Ya = 10 ^ 36 * (1 / 10 ^ 36 * Ya) := by field_simp
-    rw [e]
-    have : (10 : ℝ) ^ 36 * (1 / 10 ^ 36 * Ya) ≤ 10 ^ 36 * (2 * 10 ^ 6) := mul_le_mul_of_nonneg_left h2 (by norm_num)
-    have e2 : (10 : ℝ) ^ 36 * (2 * 10 ^ 6) = 2 * 10 ^ 42 := by norm_num
-    linarith
-  constructor
-  · unfold Bk
-    have e : Ya * ((κ' + 4 / 10 ^ 57) * Lx + 46 / 10 ^ 57) = (κ' + 4 / 10 ^ 57) * (Lx * Ya) + 46 / 10 ^ 57 * Ya := by ring
-    rw [e]
-    have h1 : (κ' + 4 / 10 ^ 57) * (Lx * Ya) ≤ (1 / 10 ^ 30 + 4 / 10 ^ 57) * (2 * 10 ^ 6) :=
-      mul_le_mul (by linarith) hp (by positivity) (by norm_num)
-    have h2 : 46 / 10 ^ 57 * Ya ≤ 46 / 10 ^ 57 * (2 * 10 ^ 42) := mul_le_mul_of_nonneg_left hYa (by norm_num)
-    have h3 : ((1 : ℝ) / 10 ^ 30 + 4 / 10 ^ 57) * (2 * 10 ^ 6) + 46 / 10 ^ 57 * (2 * 10 ^ 42) ≤ 1 / 10 ^ 9 := by norm_num
-    linarith
-  · have e : Ya * (κ * Lx + 1 / 10 ^ 55) = κ * (Lx * Ya) + 1 / 10 ^ 55 * Ya := by ring
-    rw [e]
-    have h1 : κ * (Lx * Ya) ≤ 1 / 10 ^ 29 * (2 * 10 ^ 6) := mul_le_mul hκ2 hp (by positivity) (by norm_num)
-    have h2 : 1 / 10 ^ 55 * Ya ≤ 1 / 10 ^ 55 * (2 * 10 ^ 42) := mul_le_mul_of_nonneg_left hYa (by norm_num)
-    have h3 : (1 : ℝ) / 10 ^ 29 * (2 * 10 ^ 6) + 1 / 10 ^ 55 * (2 * 10 ^ 42) ≤ 1 / 1000 := by norm_num
-    linarith
-
-/-- a working-format value is at least `10^exp` when its significand is non-zero, and below `10^(exp + ⌊log10 sig⌋ + 1)` -/
-theorem val_log_bounds (x : decomposed192) (hs : x.sig.toNat ≠ 0) :
-    ((10 : ℝ) ^ (x.exp.toInt + (Nat.log 10 x.sig.toNat : Int)) ≤ ((val x : ℚ) : ℝ)) ∧
-    ((val x : ℚ) : ℝ) < (10 : ℝ) ^ (x.exp.toInt + (Nat.log 10 x.sig.toNat : Int) + 1) := by
-  obtain ⟨hb1, hb2⟩ := log_bounds x.sig.toNat (Nat.pos_of_ne_zero hs)
-  have hb1r : (10 : ℝ) ^ (Nat.log 10 x.sig.toNat : Int) ≤ (x.sig.toNat : ℝ) := by
-    have : (((10 : ℚ) ^ (Nat.log 10 x.sig.toNat : Int) : ℚ) : ℝ) ≤ ((x.sig.toNat : ℚ) : ℝ) := by exact_mod_cast hb1
-    push_cast at this; exact this
-  have hb2r : (x.sig.toNat : ℝ) < (10 : ℝ) ^ ((Nat.log 10 x.sig.toNat : Int) + 1) := by
-    have : ((x.sig.toNat : ℚ) : ℝ) < (((10 : ℚ) ^ ((Nat.log 10 x.sig.toNat : Int) + 1) : ℚ) : ℝ) := by exact_mod_cast hb2
-    push_cast at this; exact this
-  have hp : (0 : ℝ) < (10 : ℝ) ^ x.exp.toInt := zpow_pos (by norm_num) _
-  rw [val_cast]
-  constructor
-  · rw [add_comm, zpow_add₀ (by norm_num)]
-    exact mul_le_mul_of_nonneg_right hb1r hp.le
-  · rw [show x.exp.toInt + (Nat.log 10 x.sig.toNat : Int) + 1 = ((Nat.log 10 x.sig.toNat : Int) + 1) + x.exp.toInt by ring,
-      zpow_add₀ (by norm_num)]
-    exact mul_lt_mul_of_pos_right hb2r hp
+/-- the first range test taken: the true exponent is at least 40000 -/
+theorem far_of_sum {Lv Lx Ya : ℝ} {sL sO : Nat} {le oe : Int} (hsL : 1 ≤ sL) (hsO : 1 ≤ sO)
+    (hLv : Lv = (sL : ℝ) * (10 : ℝ) ^ le) (hYa : Ya = (sO : ℝ) * (10 : ℝ) ^ oe) (h5 : (5 : Int) ≤ le + oe)
+    (hLv2 : Lv ≤ 2 * Lx) (hY : 0 < Ya) : 40000 ≤ Lx * Ya := by
+  have h1 : (10 : ℝ) ^ le ≤ Lv := by
+    rw [hLv]
+    have h1' : (1 : ℝ) ≤ (sL : ℝ) := by exact_mod_cast hsL
+    have hp : (0 : ℝ) < (10 : ℝ) ^ le := zpow_pos (by norm_num) _
+    nlinarith
+  have h2 : (10 : ℝ) ^ oe ≤ Ya := by
+    rw [hYa]
+    have h1' : (1 : ℝ) ≤ (sO : ℝ) := by exact_mod_cast hsO
+    have hp : (0 : ℝ) < (10 : ℝ) ^ oe := zpow_pos (by norm_num) _
+    nlinarith
+  have h3 : (10 : ℝ) ^ (5 : Int) ≤ (10 : ℝ) ^ le * (10 : ℝ) ^ oe := by
+    rw [← zpow_add₀ (by norm_num)]
+    exact zpow_le_zpow_right₀ (by norm_num) h5
+  have hLvpos : 0 ≤ Lv := le_trans (zpow_pos (by norm_num) _).le h1
+  have h4 : (10 : ℝ) ^ le * (10 : ℝ) ^ oe ≤ Lv * Ya :=
+    mul_le_mul h1 h2 (zpow_pos (by norm_num) _).le hLvpos
+  have h5' : Lv * Ya ≤ 2 * Lx * Ya := mul_le_mul_of_nonneg_right hLv2 hY.le
+  have h6 : (10 : ℝ) ^ (5 : Int) = 100000 := by norm_num
+  rw [h6] at h3
+  nlinarith
 
 /-! ## the general path -/
 
@@ -151,31 +64,34 @@ theorem general_good (rm : UInt8) (m : Spec.Mode) (hm : Spec.Mode.ofNat? rm.toNa
     (hκ : (κ' + 4 / 10 ^ 57) * (1 + 1 / 10 ^ 7) ≤ κ / 2) (hκ2 : κ ≤ 1 / 10 ^ 29)
     (hlogacc : ∀ inv x t, Gen.decomposed192.log (wf dSig dExp) = .ok (inv, x, t) →
       |((val x : ℚ) : ℝ) - (|Real.log ((val (wf dSig dExp) : ℚ) : ℝ)|)|
-        ≤ κ' * |Real.log ((val (wf dSig dExp) : ℚ) : ℝ)| + 45 / 10 ^ 57)
-    (r : Decimal) (h : general rm oNeg neg oSig oExp dSig dExp = .ok r) :
+        ≤ κ' * |Real.log ((val (wf dSig dExp) : ℚ) : ℝ)| + 45 / 10 ^ 57) :
+    ∀ r : Decimal, general rm oNeg neg oSig oExp dSig dExp = .ok r →
     PowGood neg
       (((val (wf oSig oExp) : ℚ) : ℝ) * (κ * |Real.log ((val (wf dSig dExp) : ℚ) : ℝ)| + 1 / 10 ^ 55))
       (Real.exp (Real.log ((val (wf dSig dExp) : ℚ) : ℝ) *
         (if oNeg = true then -((val (wf oSig oExp) : ℚ) : ℝ) else ((val (wf oSig oExp) : ℚ) : ℝ))))
       𝔳[r] := by
   -- the operands
-  set a := wf dSig dExp with ha
-  set yv := wf oSig oExp with hyv
-  have hasig : a.sig.toNat = dSig.toNat := wf_sig dSig dExp
-  have haexp : a.exp.toInt = dExp.toInt - 6176 := wf_exp dSig dExp hde0 hde1
-  have hysig : yv.sig.toNat = oSig.toNat := wf_sig oSig oExp
-  have hyexp : yv.exp.toInt = oExp.toInt - 6176 := wf_exp oSig oExp hoe0 hoe1
-  have hCm := Cmax_val
+  obtain ⟨a, ha⟩ : ∃ a, wf dSig dExp = a := ⟨_, rfl⟩
+  obtain ⟨yv, hyv⟩ : ∃ yv, wf oSig oExp = yv := ⟨_, rfl⟩
+  have hasig : a.sig.toNat = dSig.toNat := by rw [← ha]; exact wf_sig dSig dExp
+  have haexp : a.exp.toInt = dExp.toInt - 6176 := by rw [← ha]; exact wf_exp dSig dExp hde0 hde1
+  have hysig : yv.sig.toNat = oSig.toNat := by rw [← hyv]; exact wf_sig oSig oExp
+  have hyexp : yv.exp.toInt = oExp.toInt - 6176 := by rw [← hyv]; exact wf_exp oSig oExp hoe0 hoe1
+  rw [ha] at hlogacc
+  rw [ha, hyv]
   set Xa : ℝ := ((val a : ℚ) : ℝ) with hXa
   set Ya : ℝ := ((val yv : ℚ) : ℝ) with hYa
   have hXaeq : Xa = (dSig.toNat : ℝ) * (10 : ℝ) ^ (dExp.toInt - 6176) := by
     rw [hXa, val_cast, hasig, haexp]
+  have hYaeq : Ya = (oSig.toNat : ℝ) * (10 : ℝ) ^ (oExp.toInt - 6176) := by
+    rw [hYa, val_cast, hysig, hyexp]
   have hXpos : 0 < Xa := by
     rw [hXaeq]
     have : (0 : ℝ) < (dSig.toNat : ℝ) := by exact_mod_cast hd1
     positivity
   have hYpos : 0 < Ya := by
-    rw [hYa, val_cast, hysig]
+    rw [hYaeq]
     have : (0 : ℝ) < (oSig.toNat : ℝ) := by exact_mod_cast ho1
     positivity
   have hκ3 : 0 ≤ κ := by
@@ -185,29 +101,28 @@ theorem general_good (rm : UInt8) (m : Spec.Mode) (hm : Spec.Mode.ofNat? rm.toNa
   have hLx0 : 0 ≤ Lx := abs_nonneg _
   have htol0 : 0 ≤ Ya * (κ * Lx + 1 / 10 ^ 55) := by positivity
   -- the logarithm
-  obtain ⟨inv, L, tL, hlogeq, hfl, hLe0, hLe1, hinv, -, -⟩ := log_fine a (by rw [hasig]; omega) (by rw [haexp]; omega)
+  have hsa : a.sig.toNat ≠ 0 := by rw [hasig]; exact Nat.one_le_iff_ne_zero.1 hd1
+  have hea : -16000 ≤ a.exp.toInt ∧ a.exp.toInt ≤ 16000 := by rw [haexp]; exact side_log _ hde0 hde1
+  obtain ⟨inv, L, tL, hlogeq, hfl, hLe0, hLe1, hinv, -⟩ := log_fine a hsa hea
   have hLacc := hlogacc inv L tL hlogeq
-  unfold general at h
-  dsimp only at h
-  obtain ⟨x0, hx0, h⟩ := bind_ok h
-  have hx0' : x0 = (inv, L, tL) := by
-    have : Gen.decomposed192.log a = .ok x0 := hx0
-    rw [hlogeq] at this; injection this with this; exact this.symm
-  subst hx0'
-  dsimp only at h
-  rw [sig_zero_test L.sig] at h
+  have hG0 : general rm oNeg neg oSig oExp dSig dExp = genAfterLog rm oNeg neg oSig oExp (inv, L, tL) :=
+    gS_log (by rw [ha]; exact hlogeq)
+  rw [hG0]
   by_cases hone : Xa = 1
   · -- |x| = 1: the logarithm is exactly 0, the result is ±1
     have hvq : val a = 1 := by
       have : ((val a : ℚ) : ℝ) = ((1 : ℚ) : ℝ) := by rw [← hXa, hone]; norm_num
       exact_mod_cast this
-    have hL0 := log_at_one a (by rw [hasig]; omega) (by rw [haexp]; omega) hvq inv L tL hlogeq
-    rw [if_pos (by simpa using hL0)] at h
+    have hL0 := log_at_one a hsa hea hvq inv L tL hlogeq
+    rw [gAL_one hL0]
+    intro r h
     have hr : Gen.one neg = r := by injection h
     rw [← hr, Enc.interp_one, hone, Real.log_one, zero_mul, Real.exp_zero]
-    exact good_one neg (by rw [hLx, hone, Real.log_one, abs_zero] at htol0 ⊢; simpa using htol0)
+    have e0 : Lx = 0 := by rw [hLx, hone, Real.log_one, abs_zero]
+    rw [e0]; rw [e0] at htol0
+    exact good_one neg htol0
   -- |x| ≠ 1
-  have hgap := gap_one dSig.toNat (dExp.toInt - 6176) hd1 (by rw [hCm] at hdC; omega) (by rw [← hXaeq]; exact hone)
+  have hgap := gap_one dSig.toNat (dExp.toInt - 6176) hd1 (cmax_lt35 hdC) (by rw [← hXaeq]; exact hone)
   rw [← hXaeq] at hgap
   have hLx36 : 1 / 10 ^ 36 ≤ Lx := log_gap Xa hXpos hgap
   have hLxpos : 0 < Lx := lt_of_lt_of_le (by norm_num) hLx36
@@ -217,48 +132,21 @@ theorem general_good (rm : UInt8) (m : Spec.Mode) (hm : Spec.Mode.ofNat? rm.toNa
     intro h0
     have : val L = 0 := by unfold val; rw [h0]; simp
     rw [hLv, this] at hLvpos; simp at hLvpos
-  rw [if_neg (by simpa using hLsig)] at h
   -- the exponent of the power by the orientation flags
   have hsplit := arg_split (Ya := Ya) hXpos inv oNeg hinv
   rw [hsplit, exp_sgn]
   have hp0 : 0 ≤ Lx * Ya := by positivity
   -- the first range test
-  by_cases c2 : decide ((Go.conv L.exp : Int64) + (Go.conv oExp : Int64) > 12322) = true
-  · rw [if_pos c2] at h
-    rw [ret_out h]
-    apply good_out neg _ htol0
-    apply e40000
-    have hsum := (guard_sum L.exp oExp).1 c2
-    -- Lv·Ya ≥ 10^(L.exp + oExp − 6176) ≥ 10^6147
-    have h1 : (10 : ℝ) ^ L.exp.toInt ≤ Lv := by
-      rw [hLv, val_cast]
-      have : (1 : ℝ) ≤ (L.sig.toNat : ℝ) := by exact_mod_cast Nat.pos_of_ne_zero hLsig
-      have hp : (0 : ℝ) < (10 : ℝ) ^ L.exp.toInt := zpow_pos (by norm_num) _
-      nlinarith
-    have h2 : (10 : ℝ) ^ (oExp.toInt - 6176) ≤ Ya := by
-      rw [hYa, val_cast, hysig, hyexp]
-      have : (1 : ℝ) ≤ (oSig.toNat : ℝ) := by exact_mod_cast ho1
-      have hp : (0 : ℝ) < (10 : ℝ) ^ (oExp.toInt - 6176) := zpow_pos (by norm_num) _
-      nlinarith
-    have h3 : (10 : ℝ) ^ (5 : Int) ≤ (10 : ℝ) ^ L.exp.toInt * (10 : ℝ) ^ (oExp.toInt - 6176) := by
-      rw [← zpow_add₀ (by norm_num)]
-      exact zpow_le_zpow_right₀ (by norm_num) (by omega)
-    have h4 : (10 : ℝ) ^ L.exp.toInt * (10 : ℝ) ^ (oExp.toInt - 6176) ≤ Lv * Ya :=
-      mul_le_mul h1 h2 (zpow_pos (by norm_num) _).le hLvpos.le
-    have h5 : Lv * Ya ≤ 2 * Lx * Ya := mul_le_mul_of_nonneg_right hLv2 hYpos.le
-    have h6 : (10 : ℝ) ^ (5 : Int) = 100000 := by norm_num
-    rw [h6] at h3
-    nlinarith
-  rw [if_neg c2] at h
-  have hsum : ¬ (L.exp.toInt + oExp.toInt > 12322) := fun hc => c2 ((guard_sum L.exp oExp).2 hc)
+  by_cases hsum : L.exp.toInt + oExp.toInt > 12322
+  · rw [gAL_out hLsig hsum]
+    have hQ : (10 : ℝ) ^ (6200 : ℕ) ≤ Real.exp (Lx * Ya) :=
+      e40000 (far_of_sum (Nat.one_le_iff_ne_zero.2 hLsig) ho1 (by rw [hLv, val_cast]) hYaeq
+        (side_sum _ _ hsum) hLv2 hYpos)
+    exact outV_good neg _ htol0 hQ
   -- the product
-  obtain ⟨res, t1, hmul, hm1, hm2, hmt, hme0, hme1⟩ := mul_rel L yv tL (by rw [hyexp]; omega) (by rw [hyexp]; omega)
-  obtain ⟨x1, hx1, h⟩ := bind_ok h
-  have hx1' : x1 = (res, t1) := by
-    have : Gen.decomposed192.mul L yv tL = .ok x1 := hx1
-    rw [hmul] at this; injection this with this; exact this.symm
-  subst hx1'
-  dsimp only at h
+  obtain ⟨hsm1, hsm2, hsm3⟩ := side_mul L.exp.toInt oExp.toInt hLe0 hLe1 hoe0 hsum
+  obtain ⟨res, t1, hmul, hm1, hm2, hmt, hme0, hme1⟩ := mul_rel L yv tL (by rw [hyexp]; exact hsm1) (by rw [hyexp]; exact hsm2)
+  rw [gAL_mul hLsig hsum (by rw [hyv]; exact hmul)]
   set pv : ℝ := ((val res : ℚ) : ℝ) with hpv
   have hm1r : Lv * Ya * (1 - 2 / 10 ^ 57) ≤ pv := by
     have : (((val L * val yv * (1 - 2 / 10 ^ 57) : ℚ)) : ℝ) ≤ ((val res : ℚ) : ℝ) := by exact_mod_cast hm1
@@ -274,114 +162,14 @@ theorem general_good (rm : UInt8) (m : Spec.Mode) (hm : Spec.Mode.ofNat? rm.toNa
     intro h0
     have : val res = 0 := by unfold val; rw [h0]; simp
     rw [hpv, this] at hpvpos; simp at hpvpos
-  rw [sig_zero_test res.sig, if_neg (by simpa using hrsig)] at h
   have hft1 : flag3 t1 := flag3_of_or hfl hmt
-  -- the digit count
-  obtain ⟨t28, ht28, h⟩ := bind_ok h
-  have ht28' : t28 = Int64.ofNat (Nat.log 10 res.sig.toNat) := by
-    rw [D128.Proofs.WordsWide.U192_log10_eq] at ht28; injection ht28 with this; exact this.symm
-  subst ht28'
-  have hk58 := log192_lt res.sig
-  obtain ⟨hvl1, hvl2⟩ := val_log_bounds res hrsig
-  -- the second range test
-  by_cases c4 : decide ((Go.conv res.exp : Int64) > 5 - Int64.ofNat (Nat.log 10 res.sig.toNat)) = true
-  · rw [if_pos c4] at h
-    rw [ret_out h]
-    apply good_out neg _ htol0
-    apply e40000
-    have hg := (guard_log res.exp _ (by omega)).1 c4
-    have h3 : (10 : ℝ) ^ (6 : Int) ≤ (10 : ℝ) ^ (res.exp.toInt + (Nat.log 10 res.sig.toNat : Int)) :=
-      zpow_le_zpow_right₀ (by norm_num) (by omega)
-    have h6 : (10 : ℝ) ^ (6 : Int) = 1000000 := by norm_num
-    rw [h6] at h3
-    linarith
-  rw [if_neg c4, if_neg (by simpa using hrsig)] at h
-  have hg : ¬ (res.exp.toInt > 5 - (Nat.log 10 res.sig.toNat : Int)) :=
-    fun hc => c4 ((guard_log res.exp _ (by omega)).2 hc)
-  -- pv < 10^6, so p ≤ 2·10^6
-  have hpv6 : pv < 10 ^ 6 := by
-    have h3 : (10 : ℝ) ^ (res.exp.toInt + (Nat.log 10 res.sig.toNat : Int) + 1) ≤ (10 : ℝ) ^ (6 : Int) :=
-      zpow_le_zpow_right₀ (by norm_num) (by omega)
-    have h6 : (10 : ℝ) ^ (6 : Int) = 10 ^ 6 := by norm_num
-    rw [h6] at h3
-    linarith
+  have hre0 : -15900 ≤ res.exp.toInt := by rw [hyexp] at hme0; exact le_trans hsm3 hme0
+  refine stage_mul rm m hm hn neg (oNeg != inv) res t1 (Lx * Ya) (Bk κ' Lx Ya) _ hrsig hft1 hre0 hp0
+    (Bk_nonneg hκ0 hLx0 hYpos.le) htol0 hpv2 ?_
+  intro hpv6
   have hp6 : Lx * Ya ≤ 2 * 10 ^ 6 := by linarith
   obtain ⟨hBk9, htol1⟩ := small_bounds (κ := κ) hκ1 hκ2 hLx36 hYpos hp6
-  have hBk0 : 0 ≤ Bk κ' Lx Ya := Bk_nonneg hκ0 hLx0 hYpos.le
-  have hprod := prod_close (by linarith [show (1:ℝ)/10^30 ≤ 1 by norm_num]) hLxpos hYpos hLacc hm1r hm2r
-  -- epow
-  have hl10 := conv_log192 (Nat.log 10 res.sig.toNat) (by omega)
-  have hpre : EpowPre res (Go.conv (Int64.ofNat (Nat.log 10 res.sig.toNat)) : Int16) :=
-    epowPre_of_log res _ hrsig (by omega) (by omega) hl10 (by rw [hl10]; omega)
-  obtain ⟨z, hz, hfacts⟩ := epow_any res _ t1 hpre hl10 hft1
-  obtain ⟨x2, hx2, h⟩ := bind_ok h
-  have hx2' : x2 = z := by
-    rw [hz] at hx2; injection hx2 with this; exact this.symm
-  subst hx2'
-  dsimp only at h
-  have h69 : (decide (x2.1.exp > (6169 : Int16)) = true) ↔ x2.1.exp.toInt > 6169 := by
-    rw [decide_eq_true_eq, gt_iff_lt, Int16.lt_iff_toInt_lt]; simp
-  have hexp_p : Real.exp pv ≤ Real.exp (Lx * Ya) * 3 := by
-    have h1 := (abs_le.1 hprod).2
-    have h2 : pv ≤ Lx * Ya + 1 := by linarith [show (1:ℝ)/10^9 ≤ 1 by norm_num]
-    calc Real.exp pv ≤ Real.exp (Lx * Ya + 1) := Real.exp_le_exp.2 h2
-      _ = Real.exp (Lx * Ya) * Real.exp 1 := Real.exp_add _ _
-      _ ≤ Real.exp (Lx * Ya) * 3 := by
-        apply mul_le_mul_of_nonneg_left _ (Real.exp_pos _).le
-        exact (Real.exp_one_lt_d9.le.trans (by norm_num))
-  by_cases c5 : decide (x2.1.exp > (6169 : Int16)) = true
-  · -- the working exponent is beyond the range
-    rw [if_pos c5] at h
-    rw [ret_out h]
-    apply good_out neg _ htol0
-    have hbig := h69.1 c5
-    have hpv_big : (10 : ℝ) ^ (6201 : ℕ) ≤ Real.exp pv := by
-      rcases hfacts with ⟨-, hh⟩ | ⟨-, -, hv2, -, hsz, -⟩
-      · exact le_trans (pow_le_pow_right₀ (by norm_num) (by norm_num)) hh
-      · have hsz' : 10 ^ 55 ≤ x2.1.sig.toNat := hsz.resolve_left (one_ne_big x2.1 hbig)
-        have hval : (10 : ℝ) ^ (6201 : ℕ) ≤ ((val x2.1 : ℚ) : ℝ) := by
-          rw [val_cast]
-          have hs : ((10 : ℝ) ^ (55 : ℕ)) ≤ (x2.1.sig.toNat : ℝ) := by exact_mod_cast hsz'
-          have hp : (10 : ℝ) ^ (6170 : Int) ≤ (10 : ℝ) ^ x2.1.exp.toInt :=
-            zpow_le_zpow_right₀ (by norm_num) (by omega)
-          have e : (10 : ℝ) ^ (6201 : ℕ) ≤ (10 : ℝ) ^ (55 : ℕ) * (10 : ℝ) ^ (6170 : Int) := by
-            rw [← zpow_natCast, ← zpow_natCast, ← zpow_add₀ (by norm_num)]
-            exact zpow_le_zpow_right₀ (by norm_num) (by norm_num)
-          exact le_trans e (mul_le_mul hs hp (zpow_pos (by norm_num) _).le (Nat.cast_nonneg _))
-        exact le_trans hval hv2
-    have e1 : (10 : ℝ) ^ (6201 : ℕ) = (10 : ℝ) ^ (6200 : ℕ) * 10 := by rw [pow_succ]
-    rw [e1] at hpv_big
-    have hq : (0 : ℝ) < (10 : ℝ) ^ (6200 : ℕ) := by positivity
-    generalize (10 : ℝ) ^ (6200 : ℕ) = Q at *
-    nlinarith
-  rw [if_neg c5] at h
-  have hsmall : ¬ (x2.1.exp.toInt > 6169) := fun hc => c5 (h69.2 hc)
-  rcases hfacts with ⟨hd, -⟩ | ⟨hflag, hv1, hv2, -, -, -⟩
-  · rw [hd, ExpAcc.dinf_exp] at hsmall; omega
-  -- the working value against the true power
-  obtain ⟨hw1, hw2⟩ := work_close hBk0 (by linarith [show (1:ℝ)/10^9 ≤ 1/2 by norm_num]) hprod hv1 hv2
-  set η : ℝ := Bk κ' Lx Ya + 2 * Bk κ' Lx Ya ^ 2 + 1 / 10 ^ 38 with hη
-  have hη0 : 0 ≤ η := by positivity
-  have hη1 : η ≤ 1 / 10 ^ 8 := by
-    have : Bk κ' Lx Ya ^ 2 ≤ 1 / 10 ^ 9 * 1 := by
-      rw [pow_two]
-      exact mul_le_mul hBk9 (by linarith [show (1:ℝ)/10^9 ≤ 1 by norm_num]) hBk0 (by norm_num)
-    rw [hη]
-    have : (1 : ℝ) / 10 ^ 9 + 2 * (1 / 10 ^ 9 * 1) + 1 / 10 ^ 38 ≤ 1 / 10 ^ 8 := by norm_num
-    linarith
-  have hT0 : 1 ≤ Real.exp (Lx * Ya) := Real.one_le_exp hp0
-  have hz1 : Real.exp (Lx * Ya) * (1 - η) ≤ ((val x2.1 : ℚ) : ℝ) := by
-    have : Real.exp (Lx * Ya) * (1 - η) ≤ Real.exp (Lx * Ya) * (1 - Bk κ' Lx Ya - 1 / 10 ^ 38) := by
-      apply mul_le_mul_of_nonneg_left _ (Real.exp_pos _).le
-      rw [hη]; nlinarith [sq_nonneg (Bk κ' Lx Ya)]
-    linarith
-  have hz2 : ((val x2.1 : ℚ) : ℝ) ≤ Real.exp (Lx * Ya) * (1 + η) := by
-    have : Real.exp (Lx * Ya) * (1 + Bk κ' Lx Ya + 2 * Bk κ' Lx Ya ^ 2) ≤ Real.exp (Lx * Ya) * (1 + η) := by
-      apply mul_le_mul_of_nonneg_left _ (Real.exp_pos _).le
-      rw [hη]; linarith [show (0:ℝ) ≤ 1 / 10 ^ 38 by norm_num]
-    linarith
-  have hbud := budget (κ := κ) hκ0 hLx0 hYpos.le hκ hBk9
-  exact tail_good rm m hm hn neg (oNeg != inv) x2.1 x2.2 (Real.exp (Lx * Ya)) η _ hT0 hη0 hη1 htol0 htol1
-    hbud hz1 hz2 hflag (by omega) r h
+  exact ⟨prod_close (by linarith [show (1:ℝ)/10^30 ≤ 1 by norm_num]) hLxpos hYpos hLacc hm1r hm2r, hBk9, htol1,
+    budget (κ := κ) hκ0 hLx0 hYpos.le hκ hBk9⟩
 
 end PowAcc
